@@ -65,6 +65,17 @@ void harness(void)
 	if (d != 1) return;
 	V_CHECK("split: first message = bytes decoded before the cut + reference continuation", dec.data.msg == (ssize_t) (in_p + (size_t) ref1) && dec.curr == in_p + 1 + used1);
 	V_CHECK("split: first message bytes", IMP(in_k < (size_t) ref1, store[dec.data.pos + in_p + in_k] == ref1_out[in_k]) && IMP(in_p > 0, store[dec.data.pos] == 0x41));
+	/* optionally the reader polls once more before any further byte has arrived (input ends exactly behind the frame) */
+	{
+		IN(int, in_idle);
+		if (in_idle) {
+			struct iovec idle; int di;
+			idle.iov_base = store; idle.iov_len = dec.curr;
+			di = DEC_FN(&dec, &idle, 1);
+			V_CHECK("split: a poll without new input reports 'nothing yet' and does not disturb the state", di == 0 || di == MPT_ERROR(MissingBuffer));
+			if (di != 0) return;
+		}
+	}
 	/* second frame on the same state */
 	d = DEC_FN(&dec, &src, 1);
 	if (d == MPT_ERROR(MissingBuffer)) return;
